@@ -14,7 +14,7 @@ V_ENSURES(V_IMP(!(new_on_evt != NULL && V_G_RUNNING(mod) && V_OLD(g_mod->tb.toke
 V_ENSURES(V_IMP(new_on_evt != NULL && V_G_RUNNING(mod) && V_OLD(g_mod->tb.tokens) == 0, V_RET == -EAGAIN))                                    /*@C18.no-token-means-eagain*/
 V_ENSURES(V_IMP(mod != NULL && !(g_mod->state & M_MOD_ZOMBIE) && new_on_evt != NULL && g_mod->ctx != g_mctx, V_RET == -EPERM))                /*@C14.foreign-thread-refused*/
 V_ENSURES(V_IMP(new_on_evt != NULL && V_G_RUNNING(mod) && V_OLD(g_mod->tb.tokens) > 0,
-                V_RET == 0 && g.push_calls == V_OLD(g.push_calls) + 1 && g.push_arg == (void *)new_on_evt && g_recvs->top == (void *)new_on_evt
+                V_RET == 0 && g.push_calls == V_OLD(g.push_calls) + 1 && __CPROVER_pointer_equals(g.push_arg, (void *)new_on_evt) && g_recvs->top == (void *)new_on_evt
                 && g_recvs->len == V_OLD(g_recvs->len) + 1))                                                                                 /*@C17.become-pushes-exactly-this-handler*/
 V_ENSURES(V_IMP(new_on_evt != NULL && V_G_RUNNING(mod) && V_OLD(g_mod->tb.tokens) > 0, g_mod->tb.tokens == V_OLD(g_mod->tb.tokens) - 1))      /*@C18.success-consumes-one-token*/
 ;
@@ -43,9 +43,9 @@ V_ENSURES(V_IMP(evt != NULL && V_G_RUNNING(mod) && V_OLD(g_mod->tb.tokens) > 0 &
                 V_RET == -EPERM && g.ref_calls == V_OLD(g.ref_calls) && g.enq_calls == V_OLD(g.enq_calls) && g_stashq->len == V_OLD(g_stashq->len)))  /*@C16.high-priority-never-stashed*/
 /* otherwise the event is retained: exactly one reference taken, appended exactly once at the tail of the stash */
 V_ENSURES(V_IMP(evt != NULL && V_G_RUNNING(mod) && V_OLD(g_mod->tb.tokens) > 0 && !(g_src != NULL && (g_src->flags & M_SRC_PRIO_HIGH)),
-                V_RET == 0 && g.ref_calls == V_OLD(g.ref_calls) + 1 && g.ref_arg == (void *)g_evt
-                && g.enq_calls == V_OLD(g.enq_calls) + 1 && g.enq_q == g_stashq && g.enq_arg == (void *)g_evt
-                && g_stashq->len == V_OLD(g_stashq->len) + 1 && g_stashq->last == (void *)g_evt))                                            /*@C16.stash-retains-event-at-tail*/
+                V_RET == 0 && g.ref_calls == V_OLD(g.ref_calls) + 1 && __CPROVER_pointer_equals(g.ref_arg, (void *)g_evt
+               ) && g.enq_calls == V_OLD(g.enq_calls) + 1 && __CPROVER_pointer_equals(g.enq_q, g_stashq) && __CPROVER_pointer_equals(g.enq_arg, (void *)g_evt
+               ) && g_stashq->len == V_OLD(g_stashq->len) + 1 && g_stashq->last == (void *)g_evt))                                            /*@C16.stash-retains-event-at-tail*/
 ;
 
 V_CONTRACT
@@ -62,7 +62,7 @@ V_CONTRACT
 void call_pubsub_cb(m_mod_t *mod, m_queue_t *evts)
 V_REQUIRES(mod != NULL && V_Q_OK(evts))
 V_ASSIGNS(g.cb_calls, g.cb_mod, g.cb_q, g.cb_qlen)
-V_ENSURES(g.cb_calls == V_OLD(g.cb_calls) + 1 && g.cb_mod == mod && g.cb_q == evts && g.cb_qlen == evts->len)
+V_ENSURES(g.cb_calls == V_OLD(g.cb_calls) + 1 && __CPROVER_pointer_equals(g.cb_mod, mod) && __CPROVER_pointer_equals(g.cb_q, evts) && g.cb_qlen == evts->len)
 ;
 
 #define V_G_UNSTASH(mod, len)  (V_G_RUNNING(mod) && (len) > 0 && V_OLD(g_mod->tb.tokens) > 0)
@@ -83,7 +83,7 @@ V_ENSURES(V_IMP(V_G_UNSTASH(mod, len), V_RET == (ssize_t)V_MIN(len, g_S0) && g_s
 V_ENSURES(V_IMP(V_G_UNSTASH(mod, len), !g.itr_nonhead && g.enq_calls == g_enq0 + V_MIN(len, g_S0) && g.itr_rm_calls == g_rm0 + V_MIN(len, g_S0)
                 && g.ref_calls == g_ref0 + V_MIN(len, g_S0)))                                                                                /*@C16.oldest-first-each-moved-once*/
 /* ... in ONE handler invocation */
-V_ENSURES(V_IMP(V_G_UNSTASH(mod, len), g.cb_calls == g_cb0 + 1 && g.cb_mod == g_mod && g.cb_q == g.qnew_ret && g.cb_qlen == V_MIN(len, g_S0)))  /*@C16.single-invocation-with-the-unstashed-events*/
+V_ENSURES(V_IMP(V_G_UNSTASH(mod, len), g.cb_calls == g_cb0 + 1 && __CPROVER_pointer_equals(g.cb_mod, g_mod) && __CPROVER_pointer_equals(g.cb_q, g.qnew_ret) && g.cb_qlen == V_MIN(len, g_S0)))  /*@C16.single-invocation-with-the-unstashed-events*/
 ;
 
 /* ---- new_evt(): an event for a source; a pub/sub message sent by tell/broadcast has NO subscription, so src may be NULL ---------- */
@@ -98,5 +98,5 @@ evt_priv_t *new_evt(ev_src_t *src)
 V_REQUIRES(v_base_ok() && (src == NULL || (src == g_src && V_R_OK(g_src, sizeof(ev_src_t)))))
 V_ASSIGNS(g.memnew_calls, g.ref_calls, g.ref_arg)
 V_ENSURES(V_IMP(!g_alloc_fails, V_RET != NULL && V_RET->src == src && V_RET->evt.type == (src ? src->type : M_SRC_TYPE_PS)))                  /*@C02.event-for-a-message-without-subscription*/
-V_ENSURES(V_IMP(!g_alloc_fails && src != NULL, g.ref_calls == V_OLD(g.ref_calls) + 1 && g.ref_arg == (void *)src))                            /*@C04.event-holds-a-reference-on-its-source*/
+V_ENSURES(V_IMP(!g_alloc_fails && src != NULL, g.ref_calls == V_OLD(g.ref_calls) + 1 && __CPROVER_pointer_equals(g.ref_arg, (void *)src)))                            /*@C04.event-holds-a-reference-on-its-source*/
 ;
